@@ -70,8 +70,10 @@ def handle (f : String) (j : Json) : Option (Except String Json) :=
       match d.validate with
       | some _ => pure <| err "invalid-denom"
       | none =>
-        pure <| Json.mkObj [("mode", if d.hasPrefix sp sc then "unescrow" else "mint"),
-          ("coin", jstr (ics20RecvCoinDenom Sha256.hashHex sp sc dp dc s))]
+        let coin := ics20RecvCoinDenom Sha256.hashHex sp sc dp dc s
+        -- `sdk.NewCoin` panics on a denomination the SDK regards as invalid
+        if !sdkValidDenom coin then pure <| Json.mkObj [("panic", true)]
+        else pure <| Json.mkObj [("mode", if d.hasPrefix sp sc then "unescrow" else "mint"), ("coin", jstr coin)]
   | _ => none
 
 end IbcVerif.Driver.Denom
